@@ -19,12 +19,12 @@ func init() {
 		Quick: []Scenario{
 			mk("R1-save-vs-writes", 8, "2", 150), mk("R2-range-vs-expiry", 8, "2", 150), mk("R3-views-vs-eviction", 8, "2", 150), mk("R4-close-vs-all", 8, "2", 150), mk("R4c-close-vs-delete", 8, "2", 150), mk("R4d-close-vs-tick", 8, "2", 150), mk("R1b-save-vs-tick-evict", 8, "2", 150),
 			mk("R9-hybrid-promote-vs-set", 8, "2", 150), mk("R9b-hybrid-worker-vs-delete", 8, "2", 150), mk("R9c-hybrid-close", 8, "2", 150), mk("R9d-hybrid-loading", 8, "2", 150), mk("R9g-hybrid-failed-demotion-vs-set", 8, "2", 150),
-			mk("R5-loading", 8, "2", 150), mk("R5c-call-record-reuse", 8, "2", 150), mk("R6-update-vs-evict", 8, "2", 150), mk("R7-expiry-vs-ttl-update", 8, "2", 150), buf(8, "2", 150),
+			mk("R5-loading", 8, "2", 150), mk("R5c-call-record-reuse", 8, "2", 150), mk("R6-update-vs-evict", 8, "2", 150), mk("R7-expiry-vs-ttl-update", 8, "2", 150), mk("R10-doorkeeper-vs-sketch-reset", 8, "2", 150), buf(8, "2", 150),
 		},
 		Thorough: []Scenario{
 			mk("R1-save-vs-writes", 16, "3", 900), mk("R2-range-vs-expiry", 16, "3", 900), mk("R3-views-vs-eviction", 16, "3", 900), mk("R4-close-vs-all", 16, "3", 900), mk("R4b-close-vs-wait", 16, "2", 900), mk("R4c-close-vs-delete", 16, "3", 900), mk("R4d-close-vs-tick", 16, "3", 900), mk("R4e-close-vs-tick-vs-set", 16, "3", 900),
 			mk("R1b-save-vs-tick-evict", 16, "3", 900), mk("R5b-loading-vs-close-tick", 16, "2", 900), mk("R9-hybrid-promote-vs-set", 16, "3", 900), mk("R9b-hybrid-worker-vs-delete", 16, "3", 900), mk("R9c-hybrid-close", 16, "3", 900), mk("R9d-hybrid-loading", 16, "3", 900), mk("R9e-hybrid-close-3", 16, "2", 900), mk("R9f-hybrid-loading-3", 16, "2", 900), mk("R9g-hybrid-failed-demotion-vs-set", 16, "3", 900),
-			mk("R5-loading", 16, "3", 900), mk("R5c-call-record-reuse", 16, "3", 900), mk("R6-update-vs-evict", 16, "3", 900), mk("R7-expiry-vs-ttl-update", 16, "3", 900), buf(16, "3", 900),
+			mk("R5-loading", 16, "3", 900), mk("R5c-call-record-reuse", 16, "3", 900), mk("R6-update-vs-evict", 16, "3", 900), mk("R7-expiry-vs-ttl-update", 16, "3", 900), mk("R10-doorkeeper-vs-sketch-reset", 16, "3", 900), buf(16, "3", 900),
 			{Name: "C19/free-running-race-crosscheck", Build: Build{Kind: "plain", Race: true}, Pkg: "internal", Test: "TestVerif_C19Race", Shards: 4, BudgetS: 60},
 		},
 	})
